@@ -550,7 +550,12 @@ func (b BindlistInstr) Execute(env *Zlisp) error {
 	}
 
 	for i, bindThisSym := range b.syms {
-		env.LexicalBindSymbol(bindThisSym, arr[i])
+		// a binding that is refused (e.g. the variable already holds a
+		// value of another type) is an error like for def, not a silent
+		// no-op that leaves the old value in place
+		if err := env.LexicalBindSymbol(bindThisSym, arr[i]); err != nil {
+			return err
+		}
 	}
 	env.pc++
 	return nil
